@@ -1382,7 +1382,9 @@ class Store:
 
             # get the daughter processes
             if 'processes' in daughter or 'steps' in daughter:
-                processes = daughter['processes']
+                # (a copy: the update's own dictionaries stay as they are)
+                processes = deep_copy_internal(
+                    daughter.get('processes', {}))
                 deep_merge_check(processes, daughter.get('steps', {}))
             else:
                 # if no processes provided, copy the mother's processes
